@@ -46,6 +46,11 @@ func checkC05(c *vh.Ctx) {
 	c05Witnesses(c)
 	c05Runs(c)
 	c05SessionPairs(c) // stage P: overlapping lines of one project in one session
+	if bin, err := c.BuildTool("hermes2go"); err != nil {
+		c.Violate("correspondence", "build:hermes2go", err.Error(), nil)
+	} else {
+		rerunStage(c, bin, "C05") // stage R: the real result-file generator, a shorter run into a folder that holds a longer one
+	}
 }
 
 // ---------------------------------------------------------------- facts regenerated from the source
